@@ -228,7 +228,10 @@ def check_case(case, res):
         cls, site = case['fault']
         hit = [d for (c, s, d) in faults(doc) if c == cls and s == site]
         assert hit, f'no such fault site {case["fault"]}'
-        for via in ('tree', 'text'):
+        # (both carriers for the one-module documents and for the documents in other units; the tree carrier alone for
+        #  the two- and three-module documents: the YAML text of an injected defect differs from the tree only in the
+        #  spelling of the injected scalar, which the one-module documents already cover)
+        for via in (('tree', 'text') if (len(vt) == 1 or case.get('scale')) else ('tree',)):
             reset_frame_state()
             try:
                 Netlist(copy.deepcopy(hit[0]) if via == 'tree' else to_text(hit[0]))
